@@ -1609,3 +1609,4 @@ func lemmaSliceConcat(seq Sequence, c int) Sequence {
 //@   requires forall k in 0..len(rr): is(rr[k], Segment)
 //@   ensures t == ite(len(rr) > 0, rr[len(rr)-1].(Segment)[1], 0)
 //@   assigns nothing
+
